@@ -254,6 +254,40 @@ func TestVerif_C08(t *testing.T) {
 	per := pick(r, 120, 300)
 	r.Parallel(nb, func(l *Local) {
 		rng := l.Rng
+		// every invalid atom of the catalogue, each as the ONLY violation of an otherwise valid configuration, spread over
+		// the batches (lesson of seeded change C08-p: a single exotic invalid value - a port numeral that wraps around - accepted)
+		single := func(idx int, mk func(inv *CfgSpec), note string) {
+			if idx%nb != l.Batch {
+				return
+			}
+			inv := randRichValidCfg(rng)
+			mk(inv)
+			if len(inv.violations()) == 0 {
+				return
+			}
+			prior := prod[rng.IntN(len(prod))]
+			cs := c08Case{Prior: prior, Debug: rng.IntN(2) == 0, Invalid: inv, Note: note, Via: "new"}
+			c08Run(r, l, cs)
+			l.NontrivialKey(specKey(prior), specKey(inv), fmt.Sprint(cs.Debug))
+			l.counters["invalid_single-atom"]++
+		}
+		idx := 0
+		for _, a := range invalidOriginAtoms {
+			single(idx, func(inv *CfgSpec) { insertAt(rng, &inv.Origins, a) }, "single-origin-atom")
+			idx++
+		}
+		for _, a := range append(append([]MAtom{}, invalidMethodAtoms...), forbiddenMethodAtoms...) {
+			single(idx, func(inv *CfgSpec) { insertAt(rng, &inv.Methods, a) }, "single-method-atom")
+			idx++
+		}
+		for _, a := range append(append(append([]HAtom{}, invalidHdrAtoms...), forbiddenReqHdrAtoms...), prohibitedReqHdrAtoms...) {
+			single(idx, func(inv *CfgSpec) { insertAt(rng, &inv.ReqHdrs, a) }, "single-request-header-atom")
+			idx++
+		}
+		for _, a := range append(append(append([]HAtom{}, invalidHdrAtoms...), forbiddenRespHdrAtoms...), prohibitedRespHdrAtoms...) {
+			single(idx, func(inv *CfgSpec) { insertAt(rng, &inv.RespHdrs, a) }, "single-response-header-atom")
+			idx++
+		}
 		for i := 0; i < per; i++ {
 			var prior *CfgSpec
 			switch rng.IntN(8) {
